@@ -169,6 +169,9 @@ Section Refine.
   Variable A : analysis.
   Variable fx : fixes.
   Hypothesis HA : analysis_ok A.
+  (* which files of the disk the project consists of: in_dir A for the workspace alone; Spec/FreshStart.v `member w`
+     when the open documents outside the workspace take part *)
+  Variable mem : file -> bool.
   Local Notation txt := (text A).
 
   Lemma first_wf t : wf_items (first A t).
@@ -180,9 +183,9 @@ Section Refine.
                Permutation (r_errs r) (ferrs idx (first A t))) /\
     (s_contents s = None \/ s_contents s = Some t).
 
-  Definition dfiles (dk : amap txt) : list file := fset_of (filter (in_dir A) (akeys dk)).
+  Definition dfiles (dk : amap txt) : list file := fset_of (filter mem (akeys dk)).
 
-  Lemma dfiles_in dk f : In f (dfiles dk) <-> in_dir A f = true /\ aget dk f <> None.
+  Lemma dfiles_in dk f : In f (dfiles dk) <-> mem f = true /\ aget dk f <> None.
   Proof.
     unfold dfiles. rewrite fset_of_in, filter_In, aget_in_keys. tauto.
   Qed.
@@ -469,7 +472,7 @@ Section Refine.
     {| p_files := fadd f (p_files p); p_index := fadd f (p_index p); p_fsm := p_fsm p;
        p_lru := p_lru p; p_tincl := p_tincl p; p_terrs := p_terrs p |}.
 
-  Lemma he_created_eq dk p f : in_dir A f = true ->
+  Lemma he_created_eq dk p f : in_dir A f || fix_outside fx = true ->
     handle_events A fx dk p [(f, KCreated)] =
     (recompute_third A (reanalyse_all A (lru_after (fst (first_one A fx true dk (created_proj p f) f)) f) [f]), true).
   Proof.
@@ -479,7 +482,7 @@ Section Refine.
     rewrite andb_false_r. reflexivity.
   Qed.
 
-  Lemma he_deleted_eq dk p f : in_dir A f = true ->
+  Lemma he_deleted_eq dk p f : in_dir A f || fix_outside fx = true ->
     handle_events A fx dk p [(f, KDeleted)] =
     (recompute_third A (reanalyse_all A (set_lru A (remove_file A fx p f) (p_lru (remove_file A fx p f))) [f]), true).
   Proof.
@@ -501,7 +504,7 @@ Section Refine.
   Proof. reflexivity. Qed.
 
   (* ---------- the workspace file set after a disk change ---------- *)
-  Lemma dfiles_aset dk0 f t : in_dir A f = true -> dfiles (aset dk0 f t) = fadd f (dfiles dk0).
+  Lemma dfiles_aset dk0 f t : mem f = true -> dfiles (aset dk0 f t) = fadd f (dfiles dk0).
   Proof.
     intros Hd. apply sorted_ext; [apply dfiles_sorted|apply fadd_sorted, dfiles_sorted|].
     intros x. rewrite fadd_in, !dfiles_in, aget_aset. destruct (f =? x) eqn:E.
@@ -509,7 +512,7 @@ Section Refine.
     - split; [intros H; right; exact H|]. intros [->|H]; [rewrite N.eqb_refl in E; discriminate|exact H].
   Qed.
 
-  Lemma dfiles_aset_present dk0 f t : in_dir A f = true -> aget dk0 f <> None -> dfiles (aset dk0 f t) = dfiles dk0.
+  Lemma dfiles_aset_present dk0 f t : mem f = true -> aget dk0 f <> None -> dfiles (aset dk0 f t) = dfiles dk0.
   Proof.
     intros Hd Hp. rewrite dfiles_aset by exact Hd. apply fadd_id; [apply dfiles_sorted|]. apply dfiles_in. auto.
   Qed.
@@ -524,7 +527,7 @@ Section Refine.
 
   (* ---------- Changed f (didSave, watched change): disk f := t, f was there ---------- *)
   Lemma he_changed dk0 p f t :
-    good_proj dk0 p -> in_dir A f = true -> aget dk0 f <> None -> empty_hit_p A fx p f t = false ->
+    good_proj dk0 p -> mem f = true -> aget dk0 f <> None -> empty_hit_p A fx p f t = false ->
     let r := handle_events A fx (aset dk0 f t) p [(f, KChanged)] in
     (nostale_p (fst r) \/ idx_sub (fst r) -> good_proj (aset dk0 f t) (fst r)) /\
     (snd r = false -> forall g, errs_of A (fst r) g = errs_of A p g).
@@ -589,11 +592,11 @@ Section Refine.
   Proof. reflexivity. Qed.
 
   Lemma he_created dk0 p f t :
-    good_proj dk0 p -> in_dir A f = true -> empty_hit_p A fx p f t = false ->
+    good_proj dk0 p -> in_dir A f || fix_outside fx = true -> mem f = true -> empty_hit_p A fx p f t = false ->
     let r := handle_events A fx (aset dk0 f t) p [(f, KCreated)] in
     snd r = true /\ (nostale_p (fst r) \/ idx_sub (fst r) -> good_proj (aset dk0 f t) (fst r)).
   Proof.
-    intros G Hd Hemp. cbn zeta. rewrite (he_created_eq _ _ _ Hd). cbn [fst snd]. split; [reflexivity|]. intros Hns.
+    intros G Hsh Hd Hemp. cbn zeta. rewrite (he_created_eq _ _ _ Hsh). cbn [fst snd]. split; [reflexivity|]. intros Hns.
     set (dk := aset dk0 f t) in *. set (p1 := created_proj p f) in *.
     assert (Hdkf : aget dk f = Some t) by (apply aget_aset_same).
     pose proof (first_one_fields true dk p1 f) as Hfld. cbn zeta in Hfld. destruct Hfld as [F1 [F2 [F3 [F4 F5]]]].
@@ -638,7 +641,7 @@ Section Refine.
 
   (* ---------- Deleted f (watched delete): disk f removed ---------- *)
   Lemma he_deleted dk0 p f :
-    good_proj dk0 p -> in_dir A f = true ->
+    good_proj dk0 p -> in_dir A f || fix_outside fx = true ->
     let r := handle_events A fx (adel dk0 f) p [(f, KDeleted)] in
     snd r = true /\ (nostale_p (fst r) \/ idx_sub (fst r) -> good_proj (adel dk0 f) (fst r)).
   Proof.
@@ -718,9 +721,9 @@ Section Refine.
         apply aget_aset_other. intros ->. rewrite N.eqb_refl in E. discriminate.
   Qed.
 
-  Lemma init_good dk : good_proj dk (init_proj A fx dk).
+  Lemma init_good dk : good_proj dk (start_on A fx mem dk).
   Proof.
-    unfold init_proj. fold (dfiles dk). set (fl := dfiles dk).
+    unfold start_on. fold (dfiles dk). set (fl := dfiles dk).
     set (p0 := {| p_files := fl; p_index := fl; p_fsm := []; p_lru := []; p_tincl := []; p_terrs := [] |}).
     unfold first_many. rewrite first_many_fst.
     pose proof (first_fold_init dk fl fl p0 (ssorted_nodup _ (dfiles_sorted dk))) as H. cbn zeta in H.
@@ -744,6 +747,36 @@ Section Refine.
   Qed.
 
   (* hence: any project satisfying the characterisation of disk dk shows, per file, a permutation of what a fresh start shows *)
-  Lemma good_fresh dk p f : good_proj dk p -> Permutation (errs_of A p f) (errs_of A (init_proj A fx dk) f).
+  Lemma good_fresh dk p f : good_proj dk p -> Permutation (errs_of A p f) (errs_of A (start_on A fx mem dk) f).
   Proof. intros G. apply (good_unique dk); [exact G|apply init_good]. Qed.
 End Refine.
+
+(* ---------- changing the membership predicate / the disk without changing what the project sees ---------- *)
+Lemma dfiles_ext (A : analysis) (mem mem' : file -> bool) (dk dk' : amap (text A)) :
+  (forall f, (mem f = true /\ aget dk f <> None) <-> (mem' f = true /\ aget dk' f <> None)) ->
+  dfiles A mem dk = dfiles A mem' dk'.
+Proof.
+  intros H. apply sorted_ext; [apply dfiles_sorted|apply dfiles_sorted|]. intros x. rewrite !dfiles_in. apply H.
+Qed.
+
+Lemma good_proj_transport (A : analysis) (mem mem' : file -> bool) (dk dk' : amap (text A)) (p : proj A) :
+  good_proj A mem dk p -> dfiles A mem dk = dfiles A mem' dk' ->
+  (forall f, In f (dfiles A mem dk) -> aget dk' f = aget dk f) ->
+  good_proj A mem' dk' p.
+Proof.
+  intros G Hf Hd. destruct G as [G1 G2 G3 G4 G5 G6 G7]. constructor; try assumption.
+  - rewrite G1. exact Hf.
+  - intros f Hin. destruct (G3 f Hin) as [t [s0 [H1 H2]]]. exists t, s0. split; [|exact H2].
+    rewrite Hd; [exact H1|]. rewrite <- G1. exact Hin.
+Qed.
+
+Lemma good_proj_mem_ext (A : analysis) (mem mem' : file -> bool) (dk : amap (text A)) (p : proj A) :
+  (forall f, mem f = mem' f) -> good_proj A mem dk p -> good_proj A mem' dk p.
+Proof.
+  intros H G. apply (good_proj_transport A mem mem' dk dk p G); [|reflexivity].
+  apply dfiles_ext. intros f. rewrite H. tauto.
+Qed.
+
+Lemma first_one_ext (A : analysis) fx save (dk dk' : amap (text A)) (p : proj A) f :
+  aget dk f = aget dk' f -> first_one A fx save dk p f = first_one A fx save dk' p f.
+Proof. intros H. unfold first_one. rewrite H. reflexivity. Qed.
